@@ -128,6 +128,18 @@ theorem C12_crash_filewise (s : Scn) (hwf : s.WF = true)
     FileWise s (crashDir s ro dord (fun _ => false) k) :=
   crash_filewise s hwf ro hro dord hd k
 
+/-- **C12 (write faults)**: a run in which the write of any of its temp files fails (full disk, file-size limit, I/O
+    error) — shard or sidecar, any scenario — leaves, at every crash point of that run and at its end, exactly the old index
+    visible and no truncated visible file; `Finish` returns the error (model: `writeFailOps`, no rename is ever issued). -/
+theorem C12_write_fault (s : Scn) (j k : Nat) :
+    SameView (applyAll (oldDir s) ((writeFailOps s j).take k)) (oldDir s) ∧
+    NoTrunc (applyAll (oldDir s) ((writeFailOps s j).take k)) := by
+  refine ⟨sameView_of _ _ (fun n => writeFail_same s j k _ (by simp)) (fun n => writeFail_same s j k _ (by simp)) ?_, ?_⟩
+  · simp [cview, writeFail_same s j k Path.cshard (by simp), writeFail_same s j k Path.cmeta (by simp)]
+  · intro p hp
+    rw [writeFail_same s j k p hp]
+    exact oldDir_noTrunc s p
+
 /-! ## non-vacuity -/
 
 example : atomic ⟨false, false, false, false, 1, [false]⟩ = true ∧ atomic ⟨true, false, false, true, 0, [true]⟩ = true := by decide
